@@ -1183,6 +1183,8 @@ class CompositeEnvelope:
             ps = product_states[0]
         # Make sure the order of the states in tensoring is correct
         self.reorder(*states)
+        # Reordering may have joined further blocks into a new product state
+        ps = [p for p in self.states if all(so in p.state_objs for so in states)][0]
 
         outcome = ps.measure_POVM(operators, *states, destructive=destructive)
         return outcome
@@ -1264,6 +1266,8 @@ class CompositeEnvelope:
 
         # Make sure the order of the states in tensoring is correct
         self.reorder(*states)
+        # Reordering may have joined further blocks into a new product state
+        ps = [p for p in self.states if all(so in p.state_objs for so in states)][0]
 
         ps.apply_kraus(operators, *states)
 
@@ -1299,9 +1303,9 @@ class CompositeEnvelope:
             assert (
                 len(product_states) > 0
             ), "Only one product state should exist at this point"
-        ps = product_states[0]
-
         self.reorder(*states)
+        # Reordering may have joined further blocks into a new product state
+        ps = [p for p in self.states if all(so in p.state_objs for so in states)][0]
 
         return ps.trace_out(*states)
 
